@@ -286,6 +286,12 @@ def tokens_part(st, ctx, out):
         kind = sub.breach_detail[0][0]
         out.violate("C17." + kind, (cls,), {"workload_class": cls, "breaches": [repr(b) for b in sub.breach_detail],
                                             "scenario": sub.sample})
+    for v in sub.violations:
+        # whatever else it means for the workload's own property: the library asked for an asyncio loop
+        text = repr(v.detail)
+        if "no running event loop" in text or "no current event loop" in text:
+            out.violate("C17.library_needed_an_event_loop", (cls,), {"workload_class": cls, "clause": v.clause, "detail": v.detail})
+            break
     out.probes["tokens_mode"] = 1
     n_int = sub.faults.get("interrupt_absorbed", 0)
     if n_int:
@@ -383,7 +389,7 @@ def misc_part(st, ctx, out):
     sim = new_sim(st, interrupts=False)
     common.set_interrupts(sim, (1, 2, 0)[ch.draw(3)])
     L = lib()
-    what = ch.draw(4)
+    what = ch.draw(5)
     problems = []
     detail = {}
 
@@ -455,6 +461,60 @@ def misc_part(st, ctx, out):
                 pass
             if Thing.closed != 1:
                 problems.append("closing awaited aclose %d times" % Thing.closed)
+
+        sim.spawn(task())
+    elif what == 4:
+        # iterators handed out by one tool (tee children, groups) consumed by another tool that stops early and closes
+        # what it was given: closing the last live tee child closes the source, whose aclose suspends
+        n = ch.between(1, 3)
+        k_close = ch.between(1, 2)
+        consumer = ch.draw(5)
+        length = ch.between(2, 5)
+        detail = {"kind": "tee child closed by another tool", "children": n, "source_aclose_suspends": k_close,
+                  "consumer": ("islice", "any", "takewhile", "zip", "anext+aclose")[consumer], "items": length}
+
+        class Feed:
+            def __init__(self):
+                self.i = 0
+                self.closed = 0
+
+            def __aiter__(self):
+                return self
+
+            async def __anext__(self):
+                await pause(1, "feed")
+                if self.i >= length:
+                    raise StopAsyncIteration
+                self.i += 1
+                return self.i
+
+            async def aclose(self):
+                await pause(k_close, "feed-aclose")
+                self.closed += 1
+
+        async def task():
+            feed = Feed()
+            children = list(L.tee(feed, n))
+            for c in children[1:]:
+                await c.aclose()
+            child = children[0]
+            del children
+            if consumer == 0:
+                got = [x async for x in L.islice(child, 1)]
+            elif consumer == 1:
+                got = await L.any(child)
+            elif consumer == 2:
+                got = [x async for x in L.takewhile(lambda x: x < 2, child)]
+            elif consumer == 3:
+                got = [x async for x in L.zip(child, [0])]
+            else:
+                got = await child.__anext__()
+                await child.aclose()
+            if not got:
+                problems.append("consumer got %r" % (got,))
+            await child.aclose()
+            if feed.closed != 1:
+                problems.append("source closed %d times after its last child was closed" % feed.closed)
 
         sim.spawn(task())
     elif what == 3:
@@ -534,7 +594,7 @@ def misc_part(st, ctx, out):
         sim.spawn(task())
     run_sim(sim)
     sig = ("misc", ("exitstack_two_tasks", "closing", "generator_based_coroutines", "zip_close_failures",
-                    "generator_based_coroutines")[what if what != 3 else 3])
+                    "tee_child_closed_by_another_tool")[what])
     if sim.deadlock:
         out.violate("C17.deadlock", sig, detail)
     elif not sim.capped:
@@ -543,7 +603,10 @@ def misc_part(st, ctx, out):
         elif problems:
             out.violate("C17.does_not_work_with_plain_awaitables", sig, dict(detail, problems=problems))
         for t in sim.tasks:
-            if t.error is not None and not problems and not sim.breaches:
+            # (the scenario's own tasks: what the loop's finalizer does with iterators the library dropped unfinished -
+            # islice leaves its inner enumerate behind, whose finalisation then closes the same input a second time while
+            # the first close is still suspended - fails or not in the finalizer's task, never in the user's)
+            if t.error is not None and not t.is_finalizer and not problems and not sim.breaches:
                 out.violate("C17.task_failed", sig + (type(t.error).__name__,), dict(detail, error=repr(t.error)))
                 break
     out.probes["misc_mode"] = 1
